@@ -62,6 +62,8 @@ type Sched struct {
 	SyncPoints bool
 	// ManageSpawned controls whether goroutines started by rewritten `go` statements become managed threads.
 	ManageSpawned bool
+	// FuncPoints: function entries of the repository's own packages are scheduling points (race-oracle builds).
+	FuncPoints bool
 	finished int
 	join     sync.WaitGroup // real join edge thread-end -> main (adds no edge between threads)
 }
@@ -107,7 +109,7 @@ type ThreadResult struct {
 //
 //go:norace
 func Run(bodies []func(), chooser Chooser, syncPoints bool) (*Sched, []ThreadResult) {
-	s := &Sched{chooser: chooser, SyncPoints: syncPoints, MaxSteps: 100000}
+	s := &Sched{chooser: chooser, SyncPoints: syncPoints, MaxSteps: 100000, FuncPoints: DefaultFuncPoints}
 	s.mainH = newHandoff()
 	for i := range bodies {
 		t := &thread{id: i, state: stRunnable, h: newHandoff()}
@@ -324,3 +326,18 @@ func curGoid() uint64 {
 	}
 	return id
 }
+
+// FuncPoint is inserted by ovgen -funcpoints at the entry of every function of the repository's own packages.
+//
+//go:norace
+func FuncPoint(name string) {
+	if active == nil {
+		return
+	}
+	if s := Active(); s != nil && s.FuncPoints {
+		s.Point("fn", name)
+	}
+}
+
+// DefaultFuncPoints is copied into every new Sched.
+var DefaultFuncPoints bool
